@@ -123,59 +123,83 @@ def main():
     ncpu = os.cpu_count() or 4
     if shards is None:
         shards = min(cfg.get("shards", 16), max(1, ncpu))
-    if replay:
-        shards = 1
-    outdir = os.path.join(BUILD, "out")
-    os.makedirs(outdir, exist_ok=True)
-    procs = []
-    budget = cfg.get("budget_s", {}).get(tier)
-    for s in range(shards):
-        out = os.path.join(outdir, "%s.%d.json" % (cid, s))
-        if os.path.exists(out):
-            os.remove(out)
-        env = goenv()
-        env.update({"VERIF_TIER": tier, "VERIF_SEED": str(seed), "VERIF_SHARD": "%d/%d" % (s, shards), "VERIF_OUT": out})
-        env["GOMAXPROCS"] = str(cfg.get("gomaxprocs", max(1, ncpu // shards)))
-        if budget:
-            env["VERIF_BUDGET_S"] = str(budget)
-        if replay:
-            env["VERIF_REPLAY"] = os.path.abspath(replay)
-        log = open(os.path.join(outdir, "%s.%d.log" % (cid, s)), "w")
-        cmd = [binary, "-test.run", "^%s$" % cfg["test"], "-test.timeout", "0", "-test.count", "1"]
-        procs.append((subprocess.Popen(cmd, cwd=os.path.join(ROOT, cfg["pkg"]), env=env, stdout=log, stderr=subprocess.STDOUT), out, log))
-    merged = None
-    crashed = []
-    for s, (p, out, log) in enumerate(procs):
-        rc = p.wait()
-        log.close()
-        if not os.path.exists(out):
-            crashed.append((s, rc, log.name))
-            continue
-        r = json.load(open(out))
-        if rc != 0:
-            crashed.append((s, rc, log.name))
-        if merged is None:
-            merged = r
-            merged["wall_shards"] = [r["wall_s"]]
-        else:
-            for k in ("evaluations", "nontrivial", "states", "transitions", "traces"):
-                merged[k] += r[k]
-            for k, v in r["outcomes"].items():
-                merged["outcomes"][k] = merged["outcomes"].get(k, 0) + v
-            merged["exhaustive"] = merged["exhaustive"] and r["exhaustive"]
-            for c in r.get("caps") or []:
-                if c not in merged["caps"]:
-                    merged["caps"].append(c)
-            if len(merged["samples"]) < 8:
-                merged["samples"] += (r["samples"] or [])[:2]
-            seen = {v["key"] for v in merged["violations"]}
-            for v in r["violations"] or []:
-                if v["key"] not in seen:
-                    merged["violations"].append(v); seen.add(v["key"])
-            merged["wall_shards"].append(r["wall_s"])
+    def run_once():
+        outdir = os.path.join(BUILD, "out")
+        os.makedirs(outdir, exist_ok=True)
+        procs = []
+        budget = cfg.get("budget_s", {}).get(tier)
+        for s in range(shards):
+            out = os.path.join(outdir, "%s.%d.json" % (cid, s))
+            if os.path.exists(out):
+                os.remove(out)
+            env = goenv()
+            env.update({"VERIF_TIER": tier, "VERIF_SEED": str(seed), "VERIF_SHARD": "%d/%d" % (s, shards), "VERIF_OUT": out})
+            env["GOMAXPROCS"] = str(cfg.get("gomaxprocs", max(1, ncpu // shards)))
+            if budget:
+                env["VERIF_BUDGET_S"] = str(budget)
+            if replay:
+                env["VERIF_REPLAY"] = os.path.abspath(replay)
+            log = open(os.path.join(outdir, "%s.%d.log" % (cid, s)), "w")
+            cmd = [binary, "-test.run", "^%s$" % cfg["test"], "-test.timeout", "0", "-test.count", "1"]
+            procs.append((subprocess.Popen(cmd, cwd=os.path.join(ROOT, cfg["pkg"]), env=env, stdout=log, stderr=subprocess.STDOUT), out, log))
+        merged = None
+        crashed = []
+        for s, (p, out, log) in enumerate(procs):
+            rc = p.wait()
+            log.close()
+            if not os.path.exists(out):
+                crashed.append((s, rc, log.name))
+                continue
+            r = json.load(open(out))
+            if rc != 0:
+                crashed.append((s, rc, log.name))
+            if merged is None:
+                merged = r
+                merged["wall_shards"] = [r["wall_s"]]
+            else:
+                for k in ("evaluations", "nontrivial", "states", "transitions", "traces"):
+                    merged[k] += r[k]
+                for k, v in r["outcomes"].items():
+                    merged["outcomes"][k] = merged["outcomes"].get(k, 0) + v
+                merged["exhaustive"] = merged["exhaustive"] and r["exhaustive"]
+                for c in r.get("caps") or []:
+                    if c not in merged["caps"]:
+                        merged["caps"].append(c)
+                if len(merged["samples"]) < 8:
+                    merged["samples"] += (r["samples"] or [])[:2]
+                seen = {v["key"] for v in merged["violations"]}
+                for v in r["violations"] or []:
+                    if v["key"] not in seen:
+                        merged["violations"].append(v); seen.add(v["key"])
+                merged["wall_shards"].append(r["wall_s"])
+        return merged, crashed
+
+    merged, crashed = run_once()
+    if merged is not None and (merged["violations"] or crashed) and not replay:
+        # Confirmation: a violation is only reported if an independent second run of
+        # the whole check reproduces it (same key); this turns residual
+        # nondeterminism of a harness into "UNCONFIRMED" lines instead of alarms.
+        first = merged
+        first_crashed = crashed
+        merged2, crashed2 = run_once()
+        keys2 = {v["key"] for v in (merged2["violations"] if merged2 else [])}
+        confirmed = [v for v in first["violations"] if v["key"] in keys2]
+        for v in first["violations"]:
+            if v["key"] not in keys2:
+                print("UNCONFIRMED (not reproduced by a second run, not reported): key=%s: %s" % (v["key"], v["detail"][:300]))
+        first["violations"] = confirmed
+        merged = first
+        crashed = first_crashed if crashed2 else []
+        if first_crashed and not crashed2:
+            print("UNCONFIRMED: a shard crashed in the first run but not in the second; log: %s" % first_crashed[0][2])
     wall = time.time() - t0
 
     known, fixed = load_known()
+    if replay and merged is not None:
+        want = json.load(open(replay)).get("key")
+        merged["violations"] = [v for v in merged["violations"] if v["key"] == want]
+        if not merged["violations"]:
+            print("replay: the recorded violation (key=%s) is not reproduced on the current tree" % want)
     viol_lines, known_lines = [], []
     os.makedirs(os.path.join(ROOT, "replays"), exist_ok=True)
     nviol = 0
